@@ -741,11 +741,43 @@ struct OptDriver : DriverBase<OptDriver<T>> {
 };
 
 // ================================================================================================ optional<T&>
-struct OptRefDriver : DriverBase<OptRefDriver> {
-    using Base = DriverBase<OptRefDriver>;
-    using O    = etl::optional<int&>;
+// a class-type referent: for non-scalar T the optional<T&>::operator=(U&&) overload takes part in overload resolution
+struct Cell {
+    int v = 0;
+
+    Cell() = default;
+
+    Cell(int x) // NOLINT
+        : v(x)
+    {
+    }
+
+    friend auto operator==(Cell const& a, Cell const& b) -> bool { return a.v == b.v; }
+
+    friend auto operator!=(Cell const& a, Cell const& b) -> bool { return a.v != b.v; }
+
+    friend auto operator+(int a, Cell const& b) -> int { return a + b.v; }
+};
+
+inline auto cell_value(int x) -> int { return x; }
+
+inline auto cell_value(Cell const& x) -> int { return x.v; }
+
+template <typename R>
+struct OptRefDriver : DriverBase<OptRefDriver<R>> {
+    using Base = DriverBase<OptRefDriver<R>>;
+    using Base::begin_op;
+    using Base::call;
+    using Base::ctx;
+    using Base::misuse;
+    using Base::observe;
+    using Base::plan;
+    using Base::pool;
+    using Base::skip;
+    using O    = etl::optional<R&>;
+    using OC   = etl::optional<R const&>;
     O* obj[3]  = {nullptr, nullptr, nullptr};
-    int target[4] = {10, 11, 12, 13}; // referents
+    R target[4] = {R(10), R(11), R(12), R(13)}; // referents
     int bound[3]  = {-1, -1, -1};     // model: index of the referent or -1
 
     OptRefDriver(Plan const& p, Ctx& c)
@@ -796,7 +828,7 @@ struct OptRefDriver : DriverBase<OptRefDriver> {
             int const a    = static_cast<int>(st.a % static_cast<uint32_t>(pool));
             int const b    = static_cast<int>(st.b % static_cast<uint32_t>(pool));
             int const t    = static_cast<int>(st.v[0] % 4);
-            static char const* const names[] = {"bind", "emplace", "reset", "assign_nullopt", "copy_assign", "swap", "write_through", "deref_empty", "rebind_ctor"};
+            static char const* const names[] = {"bind", "emplace", "reset", "assign_nullopt", "copy_assign", "swap", "write_through", "deref_empty", "rebind_ctor", "convert_ctor"};
             int const k    = st.op;
             begin_op(names[k], a);
             ctx.log.kv("t", t);
@@ -804,7 +836,13 @@ struct OptRefDriver : DriverBase<OptRefDriver> {
             O& v = *obj[a];
             switch (k) {
             case 0:
-                if (call(a, false, false, [&] { v = O(target[t]); })) {
+                if (call(a, false, false, [&] {
+                        if (st.k[1] % 2 == 0) {
+                            v = O(target[t]);
+                        } else {
+                            v = target[t]; // operator=(U&&): must rebind, never assign through
+                        }
+                    })) {
                     bound[a] = t;
                     ++ctx.stateChanging;
                 }
@@ -846,11 +884,11 @@ struct OptRefDriver : DriverBase<OptRefDriver> {
                     skip();
                     break;
                 }
-                if (call(a, false, false, [&] { *v = 100 + static_cast<int>(st.v[1]); })) {
-                    if (target[bound[a]] != 100 + static_cast<int>(st.v[1])) {
+                if (call(a, false, false, [&] { *v = R(100 + static_cast<int>(st.v[1])); })) {
+                    if (cell_value(target[bound[a]]) != 100 + static_cast<int>(st.v[1])) {
                         ctx.violation("C07", "diff:optional-ref:write", "writing through optional<T&> did not reach the referent");
                     }
-                    target[bound[a]] = 10 + bound[a];
+                    target[bound[a]] = R(10 + bound[a]);
                 }
                 break;
             case 7:
@@ -860,10 +898,25 @@ struct OptRefDriver : DriverBase<OptRefDriver> {
                 }
                 {
                     int sink = 0;
-                    call(a, true, false, [&] { sink = *v; });
+                    call(a, true, false, [&] { sink = cell_value(*v); });
                     (void)sink;
                 }
                 break;
+            case 9: {
+                // converting construction optional<R const&>(optional<R&> const&): engaged -> same referent, empty -> empty
+                bool has       = false;
+                R const* where = nullptr;
+                if (call(a, false, false, [&] {
+                        OC c(static_cast<O const&>(v));
+                        has   = c.has_value();
+                        where = c.operator->();
+                    })) {
+                    if (has != (bound[a] >= 0) || (has && where != &target[bound[a]]) || (!has && where != nullptr)) {
+                        ctx.violation("C07", "diff:optional-ref:converting-construction", "optional<T const&> constructed from optional<T&> has the wrong state / referent");
+                    }
+                }
+                break;
+            }
             default: {
                 obj[a]->~O();
                 void* mem = arena_prepare(a, sizeof(O), plan.cfg, i + 2);
@@ -886,9 +939,9 @@ struct OptRefDriver : DriverBase<OptRefDriver> {
                 ctx.log.kv("|", bound[s]);
             }
             for (int t2 = 0; t2 < 4; ++t2) {
-                if (target[t2] != 10 + t2) {
+                if (cell_value(target[t2]) != 10 + t2) {
                     ctx.violation("C07", "diff:optional-ref:assigned-through", "rebinding an optional<T&> modified a referent");
-                    target[t2] = 10 + t2;
+                    target[t2] = R(10 + t2);
                 }
             }
             if (g_counting) {
@@ -904,7 +957,7 @@ struct OptRefDriver : DriverBase<OptRefDriver> {
 
     static auto ops() -> std::vector<OpDef> const&
     {
-        static std::vector<OpDef> const o = {{"bind", 6}, {"emplace", 4}, {"reset", 3}, {"assign_nullopt", 2}, {"copy_assign", 5}, {"swap", 4}, {"write_through", 4}, {"deref_empty", 2}, {"rebind_ctor", 3}};
+        static std::vector<OpDef> const o = {{"bind", 6}, {"emplace", 4}, {"reset", 3}, {"assign_nullopt", 2}, {"copy_assign", 5}, {"swap", 4}, {"write_through", 4}, {"deref_empty", 2}, {"rebind_ctor", 3}, {"convert_ctor", 3}};
         return o;
     }
 };
@@ -932,6 +985,8 @@ auto alt_value(X const& x) -> int
 {
     if constexpr (etl::is_same_v<X, etl::monostate>) {
         return 0;
+    } else if constexpr (etl::is_same_v<X, float>) {
+        return x != x ? 3 : static_cast<int>(x); // value code 3 stands for NaN (a partially ordered value)
     } else {
         return static_cast<int>(value_of(x));
     }
@@ -942,6 +997,8 @@ auto alt_make(int v) -> X
 {
     if constexpr (etl::is_same_v<X, etl::monostate>) {
         return X{};
+    } else if constexpr (etl::is_same_v<X, float>) {
+        return v % 4 == 3 ? __builtin_nanf("") : static_cast<float>(v % 4);
     } else {
         return X(static_cast<etl::conditional_t<is_tracked_v<X>, int, X>>(v));
     }
@@ -987,6 +1044,8 @@ struct VarDriver : DriverBase<VarDriver<Ts...>> {
                 r = 0;
             } else if constexpr (etl::is_same_v<X, char>) {
                 r = v % 100;
+            } else if constexpr (etl::is_same_v<X, float>) {
+                r = v % 4;
             }
         });
         return r;
@@ -1200,7 +1259,30 @@ struct VarDriver : DriverBase<VarDriver<Ts...>> {
                 }
                 VModel const& ma = model[x];
                 VModel const& mb = model[y];
-                bool const w[6]  = {ma == mb, !(ma == mb), ma < mb, !(mb < ma), mb < ma, !(ma < mb)};
+                // std::variant: the index decides unless equal, then the held values are compared with the operator itself
+                // (which matters for partially ordered values such as NaN)
+                auto decode = [](VModel const& vm) {
+                    double d = vm.value;
+                    with_index<NA>(vm.index, [&](auto ic) {
+                        if constexpr (etl::is_same_v<Alt<decltype(ic)::value>, float>) {
+                            if (vm.value == 3) {
+                                d = __builtin_nan("");
+                            }
+                        }
+                    });
+                    return d;
+                };
+                double const va = decode(ma);
+                double const vb = decode(mb);
+                bool const same = ma.index == mb.index;
+                bool const w[6] = {
+                    same && va == vb,
+                    !(same && va == vb),
+                    ma.index < mb.index || (same && va < vb),
+                    ma.index < mb.index || (same && va <= vb),
+                    ma.index > mb.index || (same && va > vb),
+                    ma.index > mb.index || (same && va >= vb),
+                };
                 for (int k = 0; k < 6; ++k) {
                     if (r[k] != w[k]) {
                         ctx.violation("C07", std::string("diff:variant:relation:") + names[k], "variant relation differs from std::variant");
@@ -1701,9 +1783,11 @@ struct ExpDriver : DriverBase<ExpDriver<T, E>> {
                 resync(s);
             }
             if constexpr (tracked) {
-                auto* lo = slot_obj(s);
-                if (reg().live_in(lo, lo + sizeof(X)) != 1) {
-                    ctx.violation("C03", "lifetime:leak-inside-owner", std::to_string(reg().live_in(lo, lo + sizeof(X))) + " live objects inside the expected, exactly one (value or error) must be alive");
+                auto* lo          = slot_obj(s);
+                size_t const want = obj[s]->has_value() ? (is_tracked_v<T> ? 1U : 0U) : (is_tracked_v<E> ? 1U : 0U);
+                size_t const got  = reg().live_in(lo, lo + sizeof(X));
+                if (got != want) {
+                    ctx.violation("C03", got > want ? "lifetime:leak-inside-owner" : "lifetime:missing-element", std::to_string(got) + " live objects inside the expected, exactly the held side must be alive (" + std::to_string(want) + ")");
                 }
             }
             if (!arena_guards_ok(s)) {
@@ -2055,7 +2139,9 @@ void register_ovx_0()
     add<OptDriver<int>>("optional<int>", false);
     add<OptDriver<sim::Tracked>>("optional<Tracked>", true);
     add<OptDriver<sim::TrackedMoveOnly>>("optional<TrackedMoveOnly>", true);
-    add<OptRefDriver>("optional<int&>", false);
+    add<OptDriver<sim::TrackedDA>>("optional<TrackedDA>", true);
+    add<OptRefDriver<int>>("optional<int&>", false);
+    add<OptRefDriver<Cell>>("optional<Cell&>", false);
 }
 
 auto main(int argc, char** argv) -> int
@@ -2072,6 +2158,8 @@ void register_ovx_1()
     add<VarDriver<int, sim::Tracked>>("variant<int,Tracked>", true);
     add<VarDriver<sim::Tracked, sim::TrackedB, int, etl::monostate>>("variant<Tracked,TrackedB,int,monostate>", true);
     add<VarDriver<int, sim::Tracked, int>>("variant<int,Tracked,int>", true);
+    add<VarDriver<int, float>>("variant<int,float>", false);
+    add<VarDriver<int, sim::TrackedDA>>("variant<int,TrackedDA>", true);
 }
 #elif SIM_PART == 2
 void register_ovx_2()
@@ -2079,5 +2167,6 @@ void register_ovx_2()
     add<ExpDriver<int, int>>("expected<int,int>", false);
     add<ExpDriver<sim::Tracked, sim::TrackedB>>("expected<Tracked,TrackedB>", true);
     add<ExpDriver<sim::Tracked, sim::Tracked>>("expected<Tracked,Tracked>", true);
+    add<ExpDriver<sim::TrackedDA, int>>("expected<TrackedDA,int>", true);
 }
 #endif
